@@ -225,9 +225,31 @@ def _crowd():
     return spec, plan, raw
 
 
+def _mail_crowd():
+    """a fixed site for the second enumerated crowd: one large mail folder (30 messages of 400 lines, each naming itself), whose
+    messages and listing are asked for by 36 clients at once - every reply is cut out of the same file"""
+    text = ""
+    for i in range(1, 31):
+        text += sites.FROM_LINE + "From: alice@example.com\nSubject: message number %d\n\n" % i + \
+            "".join("message %d line %04d\n" % (i, n) for n in range(400)) + "\n"
+    spec = [["big.mbox", "f", text]]
+    spec += sites.maildir_spec("md", ["maildir message %d" % i for i in range(1, 7)])
+    plan = []
+    forms = ["gopher", "http", "gplus", "gophers", "gemini", "spartan", "https"]
+    for i in range(1, 29):
+        plan.append(({"sel": "/big.mbox|/MBOX-MESSAGE/%d" % i, "kind": "doc"}, forms[i % len(forms)]))
+    for form in ("gopher", "http", "gdollar"):
+        plan.append(({"sel": "/big.mbox", "kind": "menu"}, form))
+    for i in range(1, 6):
+        plan.append(({"sel": "/md|/MAILDIR-MESSAGE/%d" % i, "kind": "doc"}, forms[i]))
+    return spec, plan, []
+
+
 def _check_burst(case, ctx):
     crowd_raw = []
-    if case.get("crowd"):
+    if case.get("crowd") == "mail":
+        spec, plan0, crowd_raw = _mail_crowd()
+    elif case.get("crowd"):
         spec, plan0, crowd_raw = _crowd()
     else:
         objs, dirs = _targets(case["site"])
@@ -250,7 +272,7 @@ def _check_burst(case, ctx):
             for rq, tls, form in crowd_raw:
                 plan.append(({"sel": world.u(rq.split(b"\r")[0]), "kind": "doc"}, form))
                 reqs.append((rq, tls))
-            ctx.nontriv(("crowd", case["servertype"]))
+            ctx.nontriv(("crowd", case["crowd"], case["servertype"]))
         else:
             plan = [(_pick(objs, dirs, t), form) for t, form in case["reqs"]]
             reqs = [_request(o, form) for o, form in plan]
@@ -495,6 +517,7 @@ def enumerate_cases(tier, seed):
     # a crowd of different large downloads and scripts, all released at once
     for st_ in ("ThreadingTCPServer", "ForkingTCPServer"):
         yield {"mode": "burst", "crowd": True, "servertype": st_}
+        yield {"mode": "burst", "crowd": "mail", "servertype": st_}
     # the in-process / live seam on a fixed site that has one object of every kind, every object through every form
     site = [["readme.txt", {"kind": "txt", "content": "hello\nworld\n"}], ["page.html", {"kind": "html", "title": "T", "content": "<html><title>T</title></html>\n"}],
             ["pic.gif", {"kind": "bin", "content": "GIF89a\x00\x01"}], ["notes.txt.gz", {"kind": "gz", "content": "compressed\n" * 50}],
